@@ -45,6 +45,9 @@ pub struct LinkInner {
     pub stream_waker: Option<Waker>,
     pub sink_waker: Option<Waker>,
     pub flushes: usize,
+    /// frames after which the sink stops accepting (livelock guard); 0 = default
+    pub budget: usize,
+    pub over_budget: bool,
 }
 
 #[derive(Clone)]
@@ -138,6 +141,9 @@ impl Link {
             w.wake();
         }
     }
+    pub fn over_budget(&self) -> bool {
+        self.0.lock().unwrap().over_budget
+    }
     pub fn silence_after_now(&self) {
         let mut l = self.0.lock().unwrap();
         let n = l.log.len();
@@ -154,6 +160,14 @@ impl Sink<Bytes> for LinkSink {
         let mut l = self.0 .0.lock().unwrap();
         if l.sink_fault {
             return Poll::Ready(Err(TErr("sink")));
+        }
+        let budget = if l.budget == 0 { 100_000 } else { l.budget };
+        if l.log.len() >= budget {
+            // livelock guard: an endpoint that keeps writing frames forever is stopped here, so that the
+            // runtime becomes idle and the harness can report it
+            l.over_budget = true;
+            l.sink_waker = Some(cx.waker().clone());
+            return Poll::Pending;
         }
         if !l.sink_ready {
             l.sink_waker = Some(cx.waker().clone());
